@@ -267,6 +267,7 @@ class FakeProc(object):
     def kill(self):
         self.w.k.kill_group(self.group)
         self.returncode = -9
+        self.w.close_descriptors(self)
 
     terminate = kill
 
@@ -395,17 +396,20 @@ class World(object):
                 p.exc = e
                 p.returncode = 1
             finally:
-                # process exit closes every descriptor the process owned
-                for c in self.server_conns:
-                    if getattr(c, 'proc', None) is p:
-                        c.is_closed = True
-                for l in list(self.listeners.values()):
-                    if getattr(l, 'proc', None) is p:
-                        l.closed = True
-                        for c in l.queue:
-                            c.is_closed = True
+                self.close_descriptors(p)
         p.thread = self.k.spawn(child, p.group, group=p.group, traced=False)
         return p
+
+    def close_descriptors(self, p):
+        """Process exit (or kill) closes every descriptor the process owned."""
+        for c in self.server_conns:
+            if getattr(c, 'proc', None) is p:
+                c.is_closed = True
+        for l in list(self.listeners.values()):
+            if getattr(l, 'proc', None) is p:
+                l.closed = True
+                for c in l.queue:
+                    c.is_closed = True
 
     def run_server_main(self, proc):
         """Execute supp/server.py's module body with __name__ == '__main__' (the real main block)."""
@@ -467,6 +471,12 @@ class World(object):
         remote.Thread = SimThread
         remote.Lock = lambda: SimLock(w)
         remote.time = SimTime(w)
+        # whatever else the client module took from `threading` by name (a Timer, say) runs on the virtual clock too
+        self._saved_extra = {}
+        for name, val in list(vars(remote).items()):
+            if val is self._saved[9] and name != 'Thread':
+                self._saved_extra[name] = val
+                setattr(remote, name, SimTimer)
         sys.argv = ArgvProxy(sys.argv)
         # threads and timers created by code running inside a simulated process (the kernel keeps the real class)
         threading.Thread = SimThread
@@ -480,6 +490,8 @@ class World(object):
         import time as _time
         (subprocess.Popen, mc.Client, mc.Listener, mc.arbitrary_address,
          remote.Thread, remote.Lock, remote.time, sys.argv, threading.Thread, threading.Timer, _time.sleep) = self._saved
+        for name, val in getattr(self, '_saved_extra', {}).items():
+            setattr(remote, name, val)
         World.current = None
 
 
